@@ -2,7 +2,7 @@
 import mpdgen as g
 import connlib
 from connlib import run_bigbin, replay_bigbin, run_cases, describe, print_replay
-from vlib import Failure, finish, unhexs
+from vlib import Failure, finish, hexs, unhexs
 
 COQ_FILES = connlib.COQ_FILES + ["Grammar.v", "RoundTripProofs.v"]
 
@@ -60,6 +60,25 @@ def gen(ctx):
         rs = [g.gen_response(rng, payload_max=rng.choice([200, 200, 9000])) for _ in range(k)]
         trailing = rng.choice([b"", b"", b"O", b"foo: ba", b"\xff", b"binary: 9\nab", b"garbage\n"])
         add(rs, trailing, rng.choice(["eof", "err"]))
+    # a connection that has seen many different field names (100 .. 5000: whatever it keeps about names is small, full, just trimmed),
+    # then a response whose receive is interrupted after its first frame and called again: decoded exactly all the same
+    def kname(i):
+        t_ = ""
+        i += 26
+        while i:
+            t_ = chr(97 + i % 26) + t_
+            i //= 26
+        return "k" + t_
+    for n_names in (100, 1000, 1023, 1024, 1025, 1100, 5000):
+        hist = {"form": "single", "frames": [{"fields": [(kname(i), "v") for i in range(n_names)], "bin": None, "binpos": None}], "error": None, "partial": None}
+        nxt = {"form": "list", "frames": [{"fields": [(kname(n_names + 1), "1"), ("x", "2")], "bin": None, "binpos": None},
+                                          {"fields": [(kname(3), "3"), (kname(n_names + 2), "4")], "bin": b"ab\n", "binpos": 2}], "error": None, "partial": None}
+        e1, e2 = g.enc_response(hist), g.enc_response(nxt)
+        exp = [g.show_response(hist), "io", g.show_response(nxt)]
+        for cut in sorted({i + 1 for i, c in enumerate(e2) if c == 10} - {len(e2)}):
+            for fl in ("b", "a"):
+                cases.append(" ".join(["recv", fl, "0", "eof", hexs(e1), hexs(e2[:cut]), "!", hexs(e2[cut:])]))
+                expect.append(exp)
     return cases, expect, abstract
 
 
